@@ -47,7 +47,7 @@ def run(tier, replay=None):
         alpha = list("abLDACBRZNOPSVTIMFU -\n#0123456789_")
         for k in range(nrnd):
             cases.append({'id': 'bytes%d' % k, 'src': fuzzlib.random_bytes(rng, 2048, alpha), 'fam': 'bytes'})
-        for c in asmlib.coupled_cases(tier != "quick")[:: (3 if tier == "quick" else 1)]:
+        for c in asmlib.coupled_cases(True):
             cases.append({'id': c['id'], 'src': c['src'], 'fam': 'coupled'})
         cases.append({'id': 'empty', 'src': "", 'fam': 'edge'})
         cases.append({'id': 'comment-only', 'src': "# nothing\n", 'fam': 'edge'})
@@ -70,7 +70,7 @@ def run(tier, replay=None):
                 continue
             if i in bad:
                 what = kind if kind not in ('ok', 'error') else ('wrote a file although it reported an error' if recs[i]['obs']['wrote'] else 'neither output nor diagnostic')
-                key = "%s:%s" % (kind, detail.split(' in ')[0][:90] if detail else what)
+                key = "%s:%s" % (kind, fuzzlib.stable(detail) if detail else what)
                 chk.violation(key, "hexasm on input %s (%s): %s %s" % (c['id'], c['fam'], what, detail), {"input.S": c['src'].encode('latin-1', 'replace')})
         chk.set("evaluations", len(cases)); chk.set("distinct_nontrivial", len(distinct))
         chk.set("outcomes", {"%s:%s" % k: v for k, v in sorted(cnt.items())})
